@@ -5,11 +5,10 @@
    GetOrAllocate / ReleaseBlocks / RestoreMapping / RestoreMappingIfAbsent calls.  An allocation op may carry the
    block somebody else chose ([Some b]): it is granted only if admissible, so the theorems cover every allocation
    policy, the current first-free one included ([None]).  [blocks_of p k] are the blocks subscriber k holds.
-   Variant [repaired] = /repo HEAD: all seven fixes/C15_*.patch are committed (285c7b2 restore validation, 7d1d0b3
+   Variant [repaired] = /repo HEAD: all nine fixes/C15_*.patch are committed (285c7b2 restore validation, 7d1d0b3
    reverse Add replace, 3b1c45d outside-address dedup, 0cedd79 HA-synced rollback, 53e73c2 inside-VRF key, 1fd8c60
-   cross-pool overlap rejected, 8d8ac1d late add completion reconciled) and two are open (audit round 2: Validate
-   accepts a reversed port range / a derived block size 0; a release ignores a mapping preserved by the degraded
-   restore -- see "open findings" below).  The [_refuted]
+   cross-pool overlap rejected, 8d8ac1d late add completion reconciled, 0e7517a port geometry validated, 2953f22
+   release frees a mapping preserved by the degraded restore).  No C15 finding is open.  The [_refuted]
    theorems below are historical witnesses against the code before the named commit; [defective] = before all of
    them.
    [wf_range r]: port-range start <= end <= 65535 (not checked by cgnat.Config.Validate; listed as an assumption). *)
@@ -309,20 +308,20 @@ Proof.
 Qed.
 Print Assumptions C15_late_completion_refuted.
 
-(* ---- open findings (audit round 2): /repo HEAD = [repaired] without the two repairs named here ---- *)
-Definition head_v (cfgcheck degrel : bool) : variant :=
+(* ---- witnesses against the code before 0e7517a / 2953f22 (both fixed) ---- *)
+Definition before_v (cfgcheck degrel : bool) : variant :=
   {| v_validate := true; v_replace := true; v_dedup := true; v_rollback := true; v_vrfkey := true; v_xpool := true;
      v_late := true; v_cfgcheck := cfgcheck; v_degrel := degrel |}.
 
-(* Config.Validate accepts port-range "2000-1000".  ConfigurePool then counts ~2^32 usable ports; with block size
+(* Before 0e7517a Config.Validate accepted port-range "2000-1000".  ConfigurePool then counts ~2^32 usable ports; with block size
    40000 the first three subscribers are given 2000-41999, 42000-16463 (the end wraps through uint16) and
    16464-56463: outside any reading of the range, and subscriber 3 overlaps subscriber 1. *)
 Definition ex_raw_rev : rawcfg :=
   {| r_bs := 40000; r_ratio := 0; r_range := Some (2000, 1000); r_max := 2; r_pooling := 1;
      r_outside := [OIp 1681915905]; r_excluded := [] |}.
 Theorem C15_in_range_refuted :
-  exists p0, setup (head_v false true) ex_raw_rev = Some p0 /\
-    let p := run (head_v false true) (effective ex_raw_rev) p0 [OAlloc 1 None; OAlloc 2 None; OAlloc 3 None] in
+  exists p0, setup (before_v false true) ex_raw_rev = Some p0 /\
+    let p := run (before_v false true) (effective ex_raw_rev) p0 [OAlloc 1 None; OAlloc 2 None; OAlloc 3 None] in
     blocks_of p 1 = [ {| b_ip := 1681915905; b_start := 2000; b_end := 41999 |} ] /\
     blocks_of p 2 = [ {| b_ip := 1681915905; b_start := 42000; b_end := 16463 |} ] /\
     blocks_of p 3 = [ {| b_ip := 1681915905; b_start := 16464; b_end := 56463 |} ] /\
@@ -330,20 +329,20 @@ Theorem C15_in_range_refuted :
 Proof. eexists. split; [vm_compute; reflexivity|]. vm_compute. repeat split. Qed.
 Print Assumptions C15_in_range_refuted.
 
-(* Config.Validate accepts block-size unset with subscriber-ratio 200 on a 128-port range: the derived block size is
+(* Before 0e7517a Config.Validate accepted block-size unset with subscriber-ratio 200 on a 128-port range: the derived block size is
    0 and ConfigurePool panics (integer divide by zero) -- [setup] has no result. *)
 Definition ex_raw_bs0 : rawcfg :=
   {| r_bs := 0; r_ratio := 200; r_range := Some (1024, 1151); r_max := 1; r_pooling := 1;
      r_outside := [OIp 1681915905]; r_excluded := [] |}.
 Theorem C15_config_panic_refuted :
-  pool_ok ex_raw_bs0 = false /\ setup (head_v false true) ex_raw_bs0 = None /\ configure (head_v false true) ex_raw_bs0 = None.
+  pool_ok ex_raw_bs0 = false /\ setup (before_v false true) ex_raw_bs0 = None /\ configure (before_v false true) ex_raw_bs0 = None.
 Proof. vm_compute. repeat split. Qed.
 Print Assumptions C15_config_panic_refuted.
 
-(* The degraded restore branch preserves subscriber 2's mapping for session 90 without recording the session; the
-   session's release finds "no pool mapping" and does nothing: the block and its reverse entry stay. *)
+(* Before 2953f22 the degraded restore branch preserved subscriber 2's mapping for session 90 without recording the
+   session; the session's release found "no pool mapping" and does nothing: the block and its reverse entry stay. *)
 Theorem C15_degraded_leak_refuted :
-  let v := head_v true false in
+  let v := before_v true false in
   let s := crun v (effective ex_raw1) (comp_init (pool_of v ex_raw1))
              [CRestoreDegraded 90 2 {| b_ip := 1681915905; b_start := 1040; b_end := 1055 |}; CRelease 90 2 []] in
   blocks_of (cp_pool s) 2 = [ {| b_ip := 1681915905; b_start := 1040; b_end := 1055 |} ] /\
